@@ -1,7 +1,1048 @@
-//! C30 — under construction.
-use vcore::Ctx;
+//! C30 — concurrent veryl processes never corrupt each other.
+//!
+//! The harness owns the schedule (`VERYL_VERIF_SOCK`, see sched.rs): every
+//! instrumented point of every steered process blocks until the harness
+//! answers.  A case = 2–3 commands + a generated release order, a shrinkable
+//! list of (which ready process goes next, for how many points); "ready" =
+//! not yet started, or waiting at a point.  A process sleeping in flock(2) is
+//! recognised through /proc/locks and is never waited for.
+//!
+//! Sub-checks
+//!   same-project   build‖build, build‖check (2–3 processes) of one generated project
+//!   two-projects   build A ‖ build/check B, two projects, one COLD user cache, std on
+//!   build-ls       a build held paused at a generated point ‖ veryl-ls opening a file
+//!   stress         N concurrent commands without the socket
+//!
+//! Oracle: every finished command's exit status and diagnostics equal those of
+//! the same command run alone on the same sources without `.build` / emitted
+//! files; the emitted files left at the end equal the clean build's; no
+//! process reads an output another process has truncated and not yet
+//! rewritten; no process logs a parse/IO failure on a shared cache file; the
+//! language server completes `didOpen` (background analysis + diagnostics)
+//! while the build is still paused with its locks.
+//! Only instrumented points are interleaved.
 
-pub fn run(_ctx: &Ctx) {
-    println!("INCONCLUSIVE property=C30: check not implemented");
-    std::process::exit(2);
+use crate::common::*;
+use crate::lsmini::{Ls, OpenDoc, Recv};
+use crate::sched::*;
+use serde_json::json;
+use std::collections::{BTreeMap, BTreeSet};
+use std::path::{Path, PathBuf};
+use std::sync::atomic::{AtomicU64, Ordering};
+use std::time::{Duration, Instant};
+use vcore::{CaseCfg, Ctx, Draw, Outcome, hash_str};
+use vproj::cli::{CliResult, Workspace, parse_diags};
+use vproj::edit::{EditPolicy, Editor};
+use vproj::toml::TomlCfg;
+use vproj::{GenOpts, gen_project};
+
+const RUNS: [usize; 11] = [usize::MAX, 1, 2, 3, 4, 6, 9, 14, 25, 50, 100];
+const WATCHDOG: Duration = Duration::from_secs(420);
+
+static AVOIDED: AtomicU64 = AtomicU64::new(0);
+static INFO_HALF_READ: AtomicU64 = AtomicU64::new(0);
+
+/// Log lines that tell that a process could not read / parse a shared cache file.
+const SHARED_FILE_COMPLAINTS: &[&str] = &[
+    "Failed to load fragment",
+    "Failed to decode fragment",
+    "Failed to restore fragment",
+    "Failed to restore diagnostics",
+    "cache: failed",
+];
+
+struct Spec {
+    label: String,
+    root: PathBuf,
+    cmd: Cmd,
+    filter: Option<&'static str>,
+}
+
+#[derive(Default)]
+struct Steered {
+    results: Vec<Option<CliResult>>,
+    trace: Vec<String>,
+    /// releases of a process while another one was paused in the middle of its command
+    switches_inside: usize,
+    /// ... while the paused one was inside its std expansion window
+    switches_in_std_window: usize,
+    classes: BTreeSet<String>,
+    problem: Option<(String, String)>,
+    inconclusive: Option<String>,
+}
+
+fn cli_result(args: &[&str], code: Option<i32>, signal: Option<i32>, stdout: String, stderr: String, root: &Path) -> CliResult {
+    let root_s = root.to_string_lossy().into_owned();
+    CliResult {
+        args: args.iter().map(|s| s.to_string()).collect(),
+        code,
+        timed_out: false,
+        signal,
+        panicked: stderr.contains("panicked at") || code == Some(101),
+        diags: parse_diags(&stderr, &root_s),
+        restored: None,
+        stdout,
+        stderr,
+    }
+}
+
+#[derive(Clone, Copy, PartialEq)]
+enum Ready {
+    Start(usize),
+    Go(usize),
+}
+
+/// Run `specs` concurrently under a generated schedule.
+fn run_steered(bin: &Path, scratch: &Path, xdg: &Path, specs: &[Spec], d: &mut Draw, avoid_std_race: bool) -> Steered {
+    let mut out = Steered {
+        results: specs.iter().map(|_| None).collect(),
+        ..Default::default()
+    };
+    let mut dir = match Director::new(scratch) {
+        Ok(d) => d,
+        Err(e) => {
+            out.inconclusive = Some(format!("cannot create the verification socket: {e}"));
+            return out;
+        }
+    };
+    let sock = dir.sock_path.to_string_lossy().into_owned();
+    let xdg_s = xdg.to_string_lossy().into_owned();
+    let deadline = Instant::now() + WATCHDOG;
+    let mut procs: Vec<Proc> = vec![];
+    let mut spec_of: Vec<usize> = vec![];
+    let mut unstarted: Vec<usize> = (0..specs.len()).collect();
+    let mut seen: Vec<Option<usize>> = vec![];
+    let mut last_name: Vec<String> = vec![];
+    // proc -> inside its std expansion window (it found the directory missing)
+    let mut std_open: Vec<bool> = vec![];
+    let mut out_window: BTreeMap<String, usize> = BTreeMap::new();
+    let mut info_window: Option<usize> = None;
+    let mut current: Option<(Ready, usize)> = None;
+    let mut last_released: Option<usize> = None;
+
+    loop {
+        let st = match quiesce(&mut dir, &mut procs, deadline) {
+            Quiet::States(s) => s,
+            Quiet::Watchdog(s) => {
+                out.inconclusive = Some(format!("watchdog: a process stayed running for {}s (states {s:?})", WATCHDOG.as_secs()));
+                break;
+            }
+        };
+        // ---- monitors on newly announced points
+        for (pi, s) in st.iter().enumerate() {
+            match s {
+                PState::AtPoint(q) if seen[pi] != Some(q.index) => {
+                    seen[pi] = Some(q.index);
+                    last_name[pi] = q.name.clone();
+                    match q.name.as_str() {
+                        "write_file:truncated" => {
+                            out_window.insert(q.path.clone(), pi);
+                        }
+                        "write_file:written" => {
+                            if out_window.get(&q.path) == Some(&pi) {
+                                out_window.remove(&q.path);
+                            }
+                        }
+                        "write_file:before-open" => {
+                            if let Some(owner) = out_window.get(&q.path)
+                                && *owner != pi
+                                && out.problem.is_none()
+                            {
+                                out.problem = Some((
+                                    "partial-output-read".into(),
+                                    format!(
+                                        "{} compared its output with {} while {} had truncated that file and not yet rewritten it",
+                                        specs[spec_of[pi]].label,
+                                        q.path,
+                                        specs[spec_of[*owner]].label
+                                    ),
+                                ));
+                            }
+                        }
+                        "build_info:half-written" => info_window = Some(pi),
+                        "build_info:written" => {
+                            if info_window == Some(pi) {
+                                info_window = None;
+                            }
+                        }
+                        "std:missing" => std_open[pi] = true,
+                        n if !n.starts_with("std:") && !n.starts_with("lock_dir") && !n.starts_with("unlock_dir") => std_open[pi] = false,
+                        _ => {}
+                    }
+                    // the unlock that ends the expansion
+                    if q.name == "unlock_dir:before-unlock" && std_open[pi] && !specs[spec_of[pi]].filter.is_some() {
+                        std_open[pi] = false;
+                    }
+                }
+                PState::Exited => {
+                    std_open[pi] = false;
+                    out_window.retain(|_, o| *o != pi);
+                    if info_window == Some(pi) {
+                        info_window = None;
+                    }
+                }
+                _ => {}
+            }
+        }
+        // ---- who can go
+        let mut ready: Vec<Ready> = unstarted.iter().map(|s| Ready::Start(*s)).collect();
+        for (pi, s) in st.iter().enumerate() {
+            if let PState::AtPoint(q) = s {
+                if avoid_std_race
+                    && q.name == "std:before-exists-check"
+                    && (0..procs.len()).any(|o| o != pi && std_open[o] && st[o] != PState::Exited)
+                {
+                    // the listed finding's schedule class, excluded by construction
+                    continue;
+                }
+                ready.push(Ready::Go(pi));
+            }
+        }
+        if ready.is_empty() {
+            if st.iter().all(|s| *s == PState::Exited) {
+                break;
+            }
+            if st.iter().any(|s| matches!(s, PState::AtPoint(_))) {
+                // only held-back existence checks are left: let the window owner finish first
+                // (cannot happen: the owner is at a point or exited) — treat as inconclusive
+                out.inconclusive = Some("scheduler: only excluded processes are ready".into());
+                break;
+            }
+            out.problem = Some((
+                "deadlock".into(),
+                format!("every live process sleeps in flock(2) and none is at a point: {st:?}"),
+            ));
+            break;
+        }
+        let choice = match current {
+            Some((r, rem)) if rem > 0 && ready.contains(&r) => {
+                current = Some((r, rem - 1));
+                r
+            }
+            _ => {
+                let r = ready[d.below_usize(ready.len())];
+                let run = RUNS[d.below_usize(RUNS.len())];
+                current = Some((r, run.saturating_sub(1)));
+                r
+            }
+        };
+        match choice {
+            Ready::Start(si) => {
+                let sp = &specs[si];
+                let mut env: Vec<(&str, &str)> = vec![
+                    ("XDG_CACHE_HOME", xdg_s.as_str()),
+                    ("NO_GRAPHICS", "1"),
+                    ("NO_COLOR", "1"),
+                    ("RUST_BACKTRACE", "0"),
+                    ("VERYL_VERIF_SOCK", sock.as_str()),
+                ];
+                if let Some(f) = sp.filter {
+                    env.push(("VERYL_VERIF_FILTER", f));
+                }
+                let mut args = vec!["--verbose"];
+                args.extend(sp.cmd.args());
+                match Proc::spawn(&sp.label, bin, &args, &sp.root, &env) {
+                    Ok(p) => {
+                        // Metadata::load reads .build/info.toml before the first point
+                        if info_window.is_some() {
+                            INFO_HALF_READ.fetch_add(1, Ordering::Relaxed);
+                            out.classes.insert("started-while-info.toml-half-written (tolerated: load failure is ignored)".into());
+                        }
+                        if let Some(lp) = last_released
+                            && st.get(lp).is_some_and(|s| *s != PState::Exited)
+                        {
+                            out.switches_inside += 1;
+                        }
+                        out.trace.push(format!("start {}", sp.label));
+                        procs.push(p);
+                        spec_of.push(si);
+                        seen.push(None);
+                        last_name.push(String::new());
+                        std_open.push(false);
+                        unstarted.retain(|x| *x != si);
+                        let pi = procs.len() - 1;
+                        current = current.map(|(_, rem)| (Ready::Go(pi), rem));
+                        last_released = Some(pi);
+                    }
+                    Err(e) => {
+                        out.inconclusive = Some(format!("spawn failed: {e}"));
+                        break;
+                    }
+                }
+            }
+            Ready::Go(pi) => {
+                if let Some(lp) = last_released
+                    && lp != pi
+                    && matches!(st[lp], PState::AtPoint(_) | PState::FlockWait)
+                {
+                    out.switches_inside += 1;
+                    out.classes.insert(format!("switch-while-other-paused@{}", if matches!(st[lp], PState::FlockWait) { "flock" } else { last_name[lp].as_str() }));
+                }
+                if let PState::AtPoint(q) = &st[pi] {
+                    if q.name == "std:before-exists-check" {
+                        let foreign = (0..procs.len()).any(|o| o != pi && std_open[o] && st[o] != PState::Exited);
+                        if foreign {
+                            out.switches_in_std_window += 1;
+                            out.classes.insert("existence-check-inside-foreign-expansion-window".into());
+                        }
+                    } else if (0..procs.len()).any(|o| o != pi && std_open[o] && matches!(st[o], PState::AtPoint(_))) {
+                        out.switches_in_std_window += 1;
+                    }
+                    let pid = procs[pi].pid;
+                    let q = dir.release(pid, false);
+                    if let Some(q) = q {
+                        let short = q.path.rsplit('/').next().unwrap_or("").to_string();
+                        out.trace.push(format!("{} {} {}", specs[spec_of[pi]].label, q.name, short));
+                    }
+                }
+                last_released = Some(pi);
+            }
+        }
+    }
+    if avoid_std_race {
+        AVOIDED.fetch_add(1, Ordering::Relaxed);
+    }
+    // ---- collect
+    for (pi, p) in procs.iter_mut().enumerate() {
+        if !p.exited() {
+            p.kill();
+            continue;
+        }
+        let (so, se) = p.output();
+        let sp = &specs[spec_of[pi]];
+        out.results[spec_of[pi]] = Some(cli_result(&sp.cmd.args(), p.code(), p.signal(), so, se, &sp.root));
+    }
+    out
+}
+
+fn complaint(r: &CliResult) -> Option<String> {
+    r.stderr
+        .lines()
+        .find(|l| SHARED_FILE_COMPLAINTS.iter().any(|c| l.contains(c)))
+        .map(|l| l.trim().to_string())
+}
+
+fn short_trace(t: &[String]) -> String {
+    // compress runs of one process
+    let mut out: Vec<String> = vec![];
+    let mut i = 0;
+    while i < t.len() {
+        let who = t[i].split(' ').next().unwrap_or("").to_string();
+        let mut j = i;
+        while j + 1 < t.len() && t[j + 1].split(' ').next() == Some(who.as_str()) {
+            j += 1;
+        }
+        if j - i >= 3 {
+            out.push(format!("{} .. ({} points) .. {}", t[i], j - i + 1, t[j].splitn(2, ' ').nth(1).unwrap_or("")));
+        } else {
+            out.extend_from_slice(&t[i..=j]);
+        }
+        i = j + 1;
+    }
+    out.join("\n  ")
+}
+
+// ------------------------------------------------------------ same project
+
+fn same_project(ctx: &Ctx, d: &mut Draw) -> Outcome {
+    let _ = ctx;
+    let gopts = GenOpts {
+        max_items: 5,
+        max_files: 3,
+        generics: false,
+        tests: false,
+        warn_per_mille: 300,
+        ..GenOpts::default()
+    };
+    let pol = EditPolicy {
+        output_edit: false,
+        toml: false,
+        defines: false,
+        errors: false,
+        generic_ops: 0,
+        gen_opts: gopts.clone(),
+        ..EditPolicy::default()
+    };
+    let mut p = gen_project(d, &gopts);
+    p.cfg.incremental = !d.chance(1, 3);
+    p.cfg.exclude_std = true;
+    let ws = Workspace::new("c30", &p.cfg.name);
+    let mut ed = Editor::create(&p, &ws);
+    let state = d.weighted(&[2, 3, 3]);
+    let mut desc = vec![p.summary()];
+    if state >= 1 {
+        let r = ws.veryl(&["build"]);
+        if r.code != Some(0) {
+            return Outcome::skip("generated project not accepted");
+        }
+        desc.push("veryl build".into());
+    }
+    if state == 2 {
+        let op = crate::c05::draw_allowed(d, &ed, &p, &ws, &pol);
+        let a = ed.apply(d, &mut p, &ws, &op, &pol);
+        desc.push(format!("edit {}", a.desc));
+    }
+    let n = d.usize_in(2, 3);
+    let mut cmds = vec![Cmd::Build];
+    for _ in 1..n {
+        cmds.push(if d.bool() { Cmd::Check } else { Cmd::Build });
+    }
+    ws.save_state("s");
+    let before_outputs = ws.outputs();
+    // clean references, one per distinct command
+    let mut refs: BTreeMap<Cmd, SeqRes> = BTreeMap::new();
+    for c in &cmds {
+        if !refs.contains_key(c) {
+            ws.restore_state("s", false);
+            strip_to_sources(&ws);
+            refs.insert(*c, run_seq(&ws, &[*c]));
+        }
+    }
+    if refs.values().any(|r| r.timed_out()) {
+        return Outcome::skip("reference run timed out");
+    }
+    if !refs.values().all(|r| r.all_ok()) {
+        return Outcome::skip("clean run not successful");
+    }
+    // sequential incremental baseline (C04's domain if it already differs)
+    ws.restore_state("s", false);
+    let mut c04 = false;
+    for c in &cmds {
+        let r = run_seq(&ws, &[*c]);
+        let cl = SeqRes {
+            cmds: refs[c].cmds.clone(),
+            outputs: r.outputs.clone(),
+        };
+        if compare(&r, &cl, None).is_some() {
+            c04 = true;
+        }
+    }
+    if cmds.contains(&Cmd::Build) {
+        let fin = SeqRes {
+            cmds: vec![],
+            outputs: ws.outputs(),
+        };
+        let cl = SeqRes {
+            cmds: vec![],
+            outputs: refs[&Cmd::Build].outputs.clone(),
+        };
+        if compare(&fin, &cl, Some(&before_outputs)).is_some() {
+            c04 = true;
+        }
+    }
+    if c04 {
+        return Outcome::skip("the sequential incremental run already differs from clean (C04's domain)");
+    }
+    ws.restore_state("s", false);
+    let specs: Vec<Spec> = cmds
+        .iter()
+        .enumerate()
+        .map(|(i, c)| Spec {
+            label: format!("P{i}:{}", c.name()),
+            root: ws.root.clone(),
+            cmd: *c,
+            filter: None,
+        })
+        .collect();
+    let run = run_steered(&ws.bin, &ws.scratch.path, &ws.xdg, &specs, d, false);
+    let text = format!(
+        "{}\ncommands: {}\nschedule:\n  {}",
+        desc.join("\n"),
+        specs.iter().map(|s| s.label.clone()).collect::<Vec<_>>().join(" ‖ "),
+        short_trace(&run.trace)
+    );
+    if let Some(w) = run.inconclusive {
+        return Outcome::skip(format!("inconclusive: {}", w.chars().take(60).collect::<String>()));
+    }
+    let input = |detail: &str| json!({"case": text, "detail": detail, "incremental": p.cfg.incremental});
+    if let Some((sig, msg)) = run.problem {
+        return Outcome::fail(format!("same-project/{sig}"), format!("{msg}\n{text}"), input(&msg));
+    }
+    for (i, r) in run.results.iter().enumerate() {
+        let Some(r) = r else {
+            return Outcome::skip("a process was killed by the harness");
+        };
+        if let Some(l) = complaint(r) {
+            return Outcome::fail(
+                "same-project/shared-file-read-failure",
+                format!("{} logged: {l}\n{text}", specs[i].label),
+                input(&l),
+            );
+        }
+        let got = SeqRes {
+            cmds: vec![CmdRes::of(cmds[i].name(), r)],
+            outputs: BTreeMap::new(),
+        };
+        let cl = SeqRes {
+            cmds: refs[&cmds[i]].cmds.clone(),
+            outputs: BTreeMap::new(),
+        };
+        if let Some(m) = compare(&got, &cl, None) {
+            return Outcome::fail(
+                format!("same-project/{}", m.what),
+                format!("{} differs from the same command run alone:\n{}\n{text}", specs[i].label, m.detail),
+                input(&m.detail),
+            );
+        }
+    }
+    if cmds.contains(&Cmd::Build) {
+        let fin = SeqRes {
+            cmds: vec![],
+            outputs: ws.outputs(),
+        };
+        let cl = SeqRes {
+            cmds: vec![],
+            outputs: refs[&Cmd::Build].outputs.clone(),
+        };
+        if let Some(m) = compare(&fin, &cl, Some(&before_outputs)) {
+            return Outcome::fail(
+                format!("same-project/{}", m.what),
+                format!("emitted files after all commands finished differ from a clean build:\n{}\n{text}", m.detail),
+                input(&m.detail),
+            );
+        }
+    }
+    let mut classes: Vec<String> = run.classes.into_iter().collect();
+    classes.push(format!("same-project:{}", cmds.iter().map(|c| c.name()).collect::<Vec<_>>().join("|")));
+    classes.push(if p.cfg.incremental { "incremental".into() } else { "non-incremental".into() });
+    classes.push(["state:cold", "state:built", "state:built+edit"][state].into());
+    Outcome::pass(hash_str(&text), run.switches_inside > 0, classes, text)
+}
+
+// ------------------------------------------------- two projects, cold std
+
+fn write_tiny(root: &Path, name: &str, incremental: bool, k: u32) {
+    let mut cfg = TomlCfg::basic(name);
+    cfg.exclude_std = false;
+    cfg.incremental = incremental;
+    vcore::util::write_file(&root.join("Veryl.toml"), &cfg.render());
+    vcore::util::write_file(&root.join("src/a.veryl"), &format!("package PkgA {{\n    const W: u32 = {};\n}}\n", 2 + k));
+    vcore::util::write_file(
+        &root.join("src/b.veryl"),
+        "module ModB (\n    i_a: input  logic<PkgA::W>,\n    o_a: output logic<PkgA::W>,\n) {\n    assign o_a = i_a + 1;\n}\n",
+    );
+}
+
+fn wipe_project(root: &Path) {
+    let _ = std::fs::remove_dir_all(root.join(".build"));
+    let _ = std::fs::remove_dir_all(root.join("target"));
+    let _ = std::fs::remove_dir_all(root.join("dependencies"));
+    for f in ["pa.f", "pb.f", "Veryl.lock"] {
+        let _ = std::fs::remove_file(root.join(f));
+    }
+}
+
+fn two_projects(ctx: &Ctx, d: &mut Draw) -> Outcome {
+    let ws = Workspace::new("c30t", "pa");
+    let root_a = ws.root.clone();
+    let root_b = ws.scratch.path.join("w2").join("pb");
+    let inc_a = d.bool();
+    let inc_b = d.bool();
+    write_tiny(&root_a, "pa", inc_a, d.below(3));
+    write_tiny(&root_b, "pb", inc_b, d.below(3));
+    let cmd_b = if d.chance(1, 3) { Cmd::Check } else { Cmd::Build };
+    let third = d.chance(1, 4);
+    // 1 of 3 cases stays outside the listed finding's schedule class
+    let avoid = d.chance(1, 3);
+    let mut specs = vec![
+        Spec {
+            label: "A:build".into(),
+            root: root_a.clone(),
+            cmd: Cmd::Build,
+            filter: Some("std:"),
+        },
+        Spec {
+            label: format!("B:{}", cmd_b.name()),
+            root: root_b.clone(),
+            cmd: cmd_b,
+            filter: Some("std:"),
+        },
+    ];
+    if third {
+        specs.push(Spec {
+            label: "C:check(of A's project)".into(),
+            root: root_a.clone(),
+            cmd: Cmd::Check,
+            filter: Some("std:"),
+        });
+    }
+    let run = run_steered(&ws.bin, &ws.scratch.path, &ws.xdg, &specs, d, avoid);
+    let text = format!(
+        "two projects (incremental {inc_a}/{inc_b}), one cold user cache, std on; {}{}\nschedule (std: points only):\n  {}",
+        specs.iter().map(|s| s.label.clone()).collect::<Vec<_>>().join(" ‖ "),
+        if avoid { " [existence checks held back while another process expands]" } else { "" },
+        short_trace(&run.trace)
+    );
+    if let Some(w) = run.inconclusive {
+        return Outcome::skip(format!("inconclusive: {}", w.chars().take(60).collect::<String>()));
+    }
+    let input = |detail: &str| json!({"case": text, "detail": detail});
+    if let Some((sig, msg)) = &run.problem {
+        return Outcome::fail(format!("two-projects/{sig}"), format!("{msg}\n{text}"), input(msg));
+    }
+    let got_out_a = outputs_of(&root_a);
+    let got_out_b = outputs_of(&root_b);
+    // solo references (cold user cache for the first one)
+    let _ = std::fs::remove_dir_all(&ws.xdg);
+    let _ = std::fs::create_dir_all(&ws.xdg);
+    let mut fails: Vec<(String, String)> = vec![];
+    for (i, sp) in specs.iter().enumerate() {
+        if i < 2 || !fails.is_empty() {
+            // (the third process shares A's directory: its reference runs on A's clean state too)
+        }
+        wipe_project(&sp.root);
+        let r = veryl_at(&ws.bin, &sp.root, &ws.xdg, &sp.cmd.args(), &[], ws.timeout);
+        if r.timed_out || !(r.code == Some(0)) {
+            return Outcome::skip("solo reference run not successful");
+        }
+        let cl = SeqRes {
+            cmds: vec![CmdRes::of(sp.cmd.name(), &r)],
+            outputs: if sp.cmd == Cmd::Build { outputs_of(&sp.root) } else { BTreeMap::new() },
+        };
+        let Some(g) = &run.results[i] else {
+            return Outcome::skip("a process was killed by the harness");
+        };
+        let got = SeqRes {
+            cmds: vec![CmdRes::of(sp.cmd.name(), g)],
+            outputs: if sp.cmd == Cmd::Build {
+                if sp.root == root_a { got_out_a.clone() } else { got_out_b.clone() }
+            } else {
+                BTreeMap::new()
+            },
+        };
+        if let Some(l) = complaint(g) {
+            fails.push(("shared-file-read-failure".into(), format!("{} logged: {l}", sp.label)));
+        }
+        if let Some(m) = compare(&got, &cl, None) {
+            fails.push((m.what.clone(), format!("{} differs from the same command run alone: {}\n{}", sp.label, m.what, m.detail)));
+        }
+    }
+    if let Some((what, detail)) = fails.first() {
+        // root cause: somebody used the library while it was being expanded
+        let std_related = run.switches_in_std_window > 0
+            && (detail.contains("dependencies/std") || detail.contains("/veryl/std/") || detail.contains("Unexpected token") || detail.contains("exit-status"));
+        let sig = if std_related {
+            "race/std-expansion-not-atomic".to_string()
+        } else {
+            format!("two-projects/{what}")
+        };
+        let all: Vec<String> = fails.iter().map(|(_, d)| d.chars().take(1500).collect()).collect();
+        let msg = format!("{}\n{text}", all.join("\n"));
+        let _ = ctx;
+        return Outcome::fail(sig, msg.clone(), input(&all.join("\n")));
+    }
+    let mut classes: Vec<String> = run.classes.into_iter().collect();
+    classes.push(format!("two-projects:{}", if third { "3 processes" } else { "2 processes" }));
+    if avoid {
+        classes.push("two-projects:known-race-class-excluded".into());
+    }
+    Outcome::pass(hash_str(&text), run.switches_in_std_window > 0 || (avoid && run.switches_inside > 0), classes, text)
+}
+
+// ------------------------------------------------------------- build ‖ LS
+
+enum LsEnd {
+    Done(OpenDoc),
+    /// the server sleeps in flock(2)
+    Flock(OpenDoc),
+    Watchdog(OpenDoc, String),
+    Died(String),
+}
+
+/// Drive a language server through "initialize, open file, final diagnostics".
+/// Its own verification points (if steered) are released at once.
+fn ls_open(ws: &Workspace, dir: Option<&mut Director>, file_rel: &str, text: &str, patience: Duration) -> LsEnd {
+    let ls_bin = vcore::util::repo_bin("veryl-ls");
+    let sock;
+    let mut env: Vec<(&str, &str)> = vec![];
+    if let Some(d) = &dir {
+        sock = d.sock_path.to_string_lossy().into_owned();
+        env.push(("VERYL_VERIF_SOCK", sock.as_str()));
+    }
+    let mut ls = match Ls::spawn(&ls_bin, &ws.root, &ws.xdg, &env) {
+        Ok(l) => l,
+        Err(e) => return LsEnd::Died(format!("spawn veryl-ls: {e}")),
+    };
+    let mut doc = OpenDoc::new(&ws.root, file_rel, text);
+    doc.start(&mut ls);
+    let deadline = Instant::now() + patience;
+    let mut dir = dir;
+    let mut flock_seen = 0u32;
+    loop {
+        if let Some(d) = dir.as_deref_mut() {
+            d.poll();
+            if let Some(q) = d.release(ls.pid, false) {
+                doc.trace.push(format!("ls point {} {}", q.name, q.path.rsplit('/').next().unwrap_or("")));
+            }
+        }
+        match ls.try_recv(Duration::from_millis(2)) {
+            Recv::Msg(m) => {
+                doc.feed(&mut ls, &m);
+                if doc.done() {
+                    return LsEnd::Done(doc);
+                }
+                continue;
+            }
+            Recv::Closed => {
+                return LsEnd::Died(format!("veryl-ls closed its output; stderr: {}", ls.stderr_text()));
+            }
+            Recv::Timeout => {}
+        }
+        if flock_waiters().contains(&ls.pid) {
+            // seen twice in a row with nothing received in between: it sleeps there
+            flock_seen += 1;
+            if flock_seen >= 3 {
+                return LsEnd::Flock(doc);
+            }
+        } else {
+            flock_seen = 0;
+        }
+        if Instant::now() > deadline {
+            let alive = ls.alive();
+            return LsEnd::Watchdog(doc, format!("alive: {alive}; stderr: {}", ls.stderr_text()));
+        }
+    }
+}
+
+fn build_ls(ctx: &Ctx, d: &mut Draw) -> Outcome {
+    let _ = ctx;
+    let gopts = GenOpts {
+        max_items: 5,
+        max_files: 3,
+        generics: false,
+        tests: false,
+        examples: false,
+        warn_per_mille: 400,
+        ..GenOpts::default()
+    };
+    let pol = EditPolicy {
+        output_edit: false,
+        toml: false,
+        defines: false,
+        errors: false,
+        generic_ops: 0,
+        gen_opts: gopts.clone(),
+        ..EditPolicy::default()
+    };
+    let mut p = gen_project(d, &gopts);
+    p.cfg.incremental = true;
+    p.cfg.exclude_std = true;
+    let ws = Workspace::new("c30l", &p.cfg.name);
+    let mut ed = Editor::create(&p, &ws);
+    let mut desc = vec![p.summary()];
+    let state = d.weighted(&[2, 3]);
+    if state == 1 {
+        let r = ws.veryl(&["build"]);
+        if r.code != Some(0) {
+            return Outcome::skip("generated project not accepted");
+        }
+        let op = crate::c05::draw_allowed(d, &ed, &p, &ws, &pol);
+        let a = ed.apply(d, &mut p, &ws, &op, &pol);
+        desc.push(format!("veryl build; edit {}", a.desc));
+    }
+    let live = p.live_files();
+    let fi = live[d.below_usize(live.len())];
+    let file_rel = p.files[fi].rel.clone();
+    let Some(file_text) = ws.read(&file_rel) else {
+        return Outcome::skip("file to open is missing");
+    };
+    ws.save_state("s");
+    // ---- references: the language server alone, the build alone (counting its points)
+    let solo = match ls_open(&ws, None, &file_rel, &file_text, Duration::from_secs(240)) {
+        LsEnd::Done(doc) => doc,
+        LsEnd::Watchdog(..) | LsEnd::Flock(..) => return Outcome::skip("inconclusive: the language server alone did not answer within the watchdog"),
+        LsEnd::Died(e) => return Outcome::skip(format!("the language server alone died (C07/C11's domain): {}", e.chars().take(60).collect::<String>())),
+    };
+    ws.restore_state("s", false);
+    strip_to_sources(&ws);
+    let clean = run_seq(&ws, &[Cmd::Build]);
+    if clean.timed_out() || !clean.all_ok() {
+        return Outcome::skip("clean run not successful");
+    }
+    ws.restore_state("s", false);
+    let log = ws.scratch.path.join("points.log");
+    let log_s = log.to_string_lossy().into_owned();
+    let warm = veryl_env(&ws, &["build"], &[("VERYL_VERIF_LOG", &log_s), COUNTING]);
+    let points = parse_points(&std::fs::read_to_string(&log).unwrap_or_default());
+    if warm.code != Some(0) || points.is_empty() {
+        return Outcome::skip("counting run of the build failed");
+    }
+    let before_outputs = {
+        ws.restore_state("s", false);
+        ws.outputs()
+    };
+    // ---- the build, held at point k
+    let k = d.below_usize(points.len());
+    let mut dir = match Director::new(&ws.scratch.path) {
+        Ok(x) => x,
+        Err(e) => return Outcome::skip(format!("inconclusive: socket: {e}")),
+    };
+    let sock = dir.sock_path.to_string_lossy().into_owned();
+    let xdg_s = ws.xdg.to_string_lossy().into_owned();
+    let env = [
+        ("XDG_CACHE_HOME", xdg_s.as_str()),
+        ("NO_GRAPHICS", "1"),
+        ("NO_COLOR", "1"),
+        ("RUST_BACKTRACE", "0"),
+        ("VERYL_VERIF_SOCK", sock.as_str()),
+    ];
+    let Ok(pb) = Proc::spawn("build", &ws.bin, &["build"], &ws.root, &env) else {
+        return Outcome::skip("inconclusive: spawn failed");
+    };
+    let mut procs = vec![pb];
+    let deadline = Instant::now() + WATCHDOG;
+    let mut held: Option<Point> = None;
+    loop {
+        match quiesce(&mut dir, &mut procs, deadline) {
+            Quiet::States(st) => match &st[0] {
+                PState::AtPoint(q) if q.index >= k => {
+                    held = Some(q.clone());
+                    break;
+                }
+                PState::AtPoint(_) => {
+                    dir.release(procs[0].pid, false);
+                }
+                _ => break,
+            },
+            Quiet::Watchdog(_) => return Outcome::skip("inconclusive: watchdog while advancing the build"),
+        }
+    }
+    let Some(held) = held else {
+        return Outcome::skip("the build ended before the chosen point");
+    };
+    let held_rel = held.path.replace(&ws.root_str(), "<ROOT>");
+    let holds_build_lock = points[..=k.min(points.len() - 1)].iter().any(|q| q.name == "lock_dir:locked");
+    let holds_cache_lock = {
+        let pre = &points[..=k.min(points.len() - 1)];
+        pre.iter().any(|q| q.name == "store:before-read-manifest")
+    };
+    // ---- the language server while the build is held
+    let end = ls_open(&ws, Some(&mut dir), &file_rel, &file_text, Duration::from_secs(150));
+    let text = format!(
+        "{}\nveryl build held at point {k}/{} = {} {held_rel} (holds .build/lock: {holds_build_lock}, cache lock: {holds_cache_lock}); veryl-ls: initialize, didOpen {file_rel}",
+        desc.join("\n"),
+        points.len(),
+        held.name
+    );
+    let finish_build = |dir: &mut Director, procs: &mut Vec<Proc>| -> bool {
+        let deadline = Instant::now() + WATCHDOG;
+        loop {
+            match quiesce(dir, procs, deadline) {
+                Quiet::States(st) => match &st[0] {
+                    PState::AtPoint(_) => {
+                        dir.release(procs[0].pid, false);
+                    }
+                    PState::Exited => return true,
+                    _ => return false,
+                },
+                Quiet::Watchdog(_) => return false,
+            }
+        }
+    };
+    let doc = match end {
+        LsEnd::Done(doc) => doc,
+        LsEnd::Died(e) => {
+            return Outcome::fail(
+                "build-ls/server-died",
+                format!("the language server died while a build was paused (alone it answers): {e}\n{text}"),
+                json!({"case": text}),
+            );
+        }
+        LsEnd::Flock(doc) => {
+            // it sleeps in flock(2) while the only other lock holder is the paused build
+            return Outcome::fail(
+                "build-ls/server-waits-for-build-lock",
+                format!("the language server sleeps in flock(2) (seen in /proc/locks) while the build is held paused; answers so far: {}\n{text}\nls trace: {:?}", doc.publishes, doc.trace),
+                json!({"case": text, "ls_trace": doc.trace}),
+            );
+        }
+        LsEnd::Watchdog(doc, why) => {
+            // distinguish "waits for the build" from "never answers": release the build
+            let _ = doc;
+            let released = finish_build(&mut dir, &mut procs);
+            return Outcome::skip(format!(
+                "inconclusive: no final answer from the language server within the watchdog while the build was held (build finished after release: {released}); {}",
+                why.chars().take(40).collect::<String>()
+            ));
+        }
+    };
+    // ---- the server's answer must be the one it gives alone
+    if doc.diag_lines() != solo.diag_lines() {
+        return Outcome::fail(
+            "build-ls/diagnostics-differ",
+            format!("diagnostics published while the build was paused differ from the server alone:\nwith build: {:#?}\nalone: {:#?}\n{text}", doc.diag_lines(), solo.diag_lines()),
+            json!({"case": text}),
+        );
+    }
+    // ---- let the build finish, compare with the clean build
+    if !finish_build(&mut dir, &mut procs) {
+        return Outcome::skip("inconclusive: the build did not finish after release");
+    }
+    let (so, se) = procs[0].output();
+    let r = cli_result(&["build"], procs[0].code(), procs[0].signal(), so, se, &ws.root);
+    let got = SeqRes {
+        cmds: vec![CmdRes::of("build", &r)],
+        outputs: ws.outputs(),
+    };
+    if let Some(m) = compare(&got, &clean, Some(&before_outputs)) {
+        return Outcome::fail(
+            format!("build-ls/{}", m.what),
+            format!("the build that ran beside the language server differs from the clean build:\n{}\n{text}", m.detail),
+            json!({"case": text, "detail": m.detail}),
+        );
+    }
+    let classes = vec![
+        format!("build-ls:held@{}", held.name),
+        format!("build-ls:holds-build-lock={holds_build_lock}"),
+        format!("build-ls:holds-cache-lock={holds_cache_lock}"),
+    ];
+    Outcome::pass(hash_str(&text), holds_build_lock, classes, text)
+}
+
+// ------------------------------------------------------------------ stress
+
+fn stress(ctx: &Ctx, d: &mut Draw) -> Outcome {
+    let _ = ctx;
+    let ws = Workspace::new("c30s", "pa");
+    let root_a = ws.root.clone();
+    let root_b = ws.scratch.path.join("w2").join("pb");
+    let std_on = d.chance(1, 3);
+    let inc = d.bool();
+    write_tiny(&root_a, "pa", inc, d.below(3));
+    write_tiny(&root_b, "pb", inc, d.below(3));
+    if !std_on {
+        for r in [&root_a, &root_b] {
+            let t = std::fs::read_to_string(r.join("Veryl.toml")).unwrap_or_default();
+            let _ = std::fs::write(r.join("Veryl.toml"), t.replace("exclude_std = false", "exclude_std = true"));
+        }
+    }
+    let n = d.usize_in(3, 6);
+    let mut plan: Vec<(PathBuf, Cmd)> = vec![];
+    for i in 0..n {
+        let root = if i % 2 == 0 || d.chance(1, 3) { root_a.clone() } else { root_b.clone() };
+        plan.push((root, if d.chance(1, 3) { Cmd::Check } else { Cmd::Build }));
+    }
+    let xdg_s = ws.xdg.to_string_lossy().into_owned();
+    let env = [
+        ("XDG_CACHE_HOME", xdg_s.as_str()),
+        ("NO_GRAPHICS", "1"),
+        ("NO_COLOR", "1"),
+        ("RUST_BACKTRACE", "0"),
+    ];
+    let mut procs: Vec<Proc> = vec![];
+    for (i, (root, c)) in plan.iter().enumerate() {
+        let mut args = vec!["--verbose"];
+        args.extend(c.args());
+        match Proc::spawn(&format!("S{i}"), &ws.bin, &args, root, &env) {
+            Ok(p) => procs.push(p),
+            Err(_) => return Outcome::skip("inconclusive: spawn failed"),
+        }
+    }
+    let deadline = Instant::now() + WATCHDOG;
+    while procs.iter_mut().any(|p| !p.exited()) {
+        if Instant::now() > deadline {
+            return Outcome::skip("inconclusive: watchdog (stress)");
+        }
+        std::thread::sleep(Duration::from_millis(5));
+    }
+    let results: Vec<CliResult> = procs
+        .iter_mut()
+        .zip(plan.iter())
+        .map(|(p, (root, c))| {
+            let (so, se) = p.output();
+            cli_result(&c.args(), p.code(), p.signal(), so, se, root)
+        })
+        .collect();
+    let out_a = outputs_of(&root_a);
+    let out_b = outputs_of(&root_b);
+    let text = format!(
+        "stress: {} concurrent commands without the socket (std {}, incremental {inc}): {}",
+        n,
+        if std_on { "on, cold user cache" } else { "off" },
+        plan.iter().map(|(r, c)| format!("{}:{}", if *r == root_a { "A" } else { "B" }, c.name())).collect::<Vec<_>>().join(" ‖ ")
+    );
+    // references
+    let _ = std::fs::remove_dir_all(&ws.xdg);
+    let _ = std::fs::create_dir_all(&ws.xdg);
+    let mut refs: BTreeMap<(bool, Cmd), SeqRes> = BTreeMap::new();
+    for (root, c) in &plan {
+        let key = (*root == root_a, *c);
+        if refs.contains_key(&key) {
+            continue;
+        }
+        wipe_project(root);
+        let r = veryl_at(&ws.bin, root, &ws.xdg, &c.args(), &[], ws.timeout);
+        if r.timed_out || r.code != Some(0) {
+            return Outcome::skip("solo reference run not successful");
+        }
+        refs.insert(
+            key,
+            SeqRes {
+                cmds: vec![CmdRes::of(c.name(), &r)],
+                outputs: if *c == Cmd::Build { outputs_of(root) } else { BTreeMap::new() },
+            },
+        );
+    }
+    for (i, r) in results.iter().enumerate() {
+        let (root, c) = &plan[i];
+        let is_a = *root == root_a;
+        let cl = &refs[&(is_a, *c)];
+        let got = SeqRes {
+            cmds: vec![CmdRes::of(c.name(), r)],
+            outputs: if *c == Cmd::Build {
+                if is_a { out_a.clone() } else { out_b.clone() }
+            } else {
+                BTreeMap::new()
+            },
+        };
+        let bad = complaint(r)
+            .map(|l| ("shared-file-read-failure".to_string(), l))
+            .or_else(|| compare(&got, cl, None).map(|m| (m.what, m.detail)));
+        if let Some((what, detail)) = bad {
+            let sig = if std_on
+                && (detail.contains("dependencies/std") || detail.contains("/veryl/std/") || detail.contains("Unexpected token") || what.starts_with("exit-status"))
+            {
+                "race/std-expansion-not-atomic".to_string()
+            } else {
+                format!("stress/{what}")
+            };
+            return Outcome::fail(sig, format!("S{i} ({}) differs from the command run alone: {what}\n{detail}\n{text}", c.name()), json!({"case": text, "detail": detail}));
+        }
+    }
+    Outcome::pass(
+        hash_str(&text),
+        true,
+        vec![format!("stress:{n} processes"), format!("stress:std {}", if std_on { "on" } else { "off" })],
+        text,
+    )
+}
+
+pub fn run(ctx: &Ctx) {
+    if !proc_locks_usable() {
+        println!("INCONCLUSIVE property=C30: /proc/locks is not readable (needed to recognise processes sleeping in flock)");
+        std::process::exit(2);
+    }
+    let dev = |k: &str, dflt: usize| std::env::var(k).ok().and_then(|x| x.parse().ok()).unwrap_or(dflt);
+    let n_same = dev("VERIF_C30_SAME", ctx.scale(64, 4000));
+    let n_two = dev("VERIF_C30_TWO", ctx.scale(24, 1500));
+    let n_ls = dev("VERIF_C30_LS", ctx.scale(32, 2000));
+    let n_stress = dev("VERIF_C30_STRESS", ctx.scale(12, 400));
+    ctx.run("two-projects", CaseCfg::cases(n_two).choices(400).timeout_s(1500).shrink_iters(40), |d| two_projects(ctx, d));
+    ctx.run("same-project", CaseCfg::cases(n_same).choices(900).timeout_s(1500).shrink_iters(40), |d| same_project(ctx, d));
+    ctx.run("build-ls", CaseCfg::cases(n_ls).choices(900).timeout_s(1500).shrink_iters(20).stack_mb(8), |d| build_ls(ctx, d));
+    ctx.run("stress", CaseCfg::cases(n_stress).choices(64).timeout_s(1500).shrink_iters(0), |d| stress(ctx, d));
+    ctx.note("std_race_class_excluded_cases", json!(AVOIDED.load(Ordering::Relaxed)));
+    ctx.note("processes_started_while_info_toml_half_written", json!(INFO_HALF_READ.load(Ordering::Relaxed)));
+    ctx.note(
+        "reach",
+        json!("only instrumented points are interleaved (lock_dir/unlock_dir, store open/gc, atomic_write, write_file_if_changed, BuildInfo::save, std expansion): a schedule is a sequence of (process, number of points) pairs; interleavings inside one write(2), between two un-instrumented operations, or of the un-instrumented reads of the analysis are not steered (the stress sub-check runs them unsteered); dependency checkouts (git) are not exercised"),
+    );
+    ctx.assume("steered processes are /repo's own veryl / veryl-ls (harness packages vcli / vls, --cfg veryl_verif) with VERYL_VERIF_SOCK; a process sleeping in flock(2) is recognised through the `->` lines of /proc/locks, never through elapsed time; watchdogs only ever give 'inconclusive' (skip)");
+    ctx.assume("reference = the same command alone on the same sources with .build and emitted files removed (and, for the two-project cases, a cold user cache for the first reference); compared: exit status, diagnostics multiset, emitted files at the end; a sequential incremental run that already differs from clean is C04's domain (skipped)");
+    ctx.assume("a process started while another has .build/info.toml half written reads a partial info.toml before it takes the .build lock; Metadata::load ignores that failure by design and info.toml is not in the property's list of shared files: counted (coverage.processes_started_while_info_toml_half_written), not a violation");
+    ctx.assume("language-server clause: the build is held at a generated point (all locks it has taken stay held); the server must complete initialize + didOpen (progress end, then diagnostics) meanwhile; a server found sleeping in flock(2) is a violation, no final answer within the watchdog is inconclusive");
+    ctx.finish(
+        "exploration",
+        "same-project: generated vproj project (1-3 files, incremental on/off) in state cold | built | built+edit, 2-3 of build/check; two-projects: two tiny std-enabled projects, one cold user cache, only std: points steered; build-ls: build held at a generated point index, veryl-ls opens a generated file; stress: 3-6 unsteered commands.  Schedule = generated (ready process, run length) list.  Non-trivial = a process was released while another was paused in the middle of its command (two-projects: while the other was inside its expansion window, or any mid-command switch in the cases that exclude the listed race; build-ls: the build holds .build/lock); distinct by project + commands + schedule trace",
+    );
 }
